@@ -12,6 +12,7 @@ import (
 	"sort"
 	"strconv"
 	"strings"
+	"syscall"
 	"time"
 )
 
@@ -143,13 +144,41 @@ func scratchDir(tag string) string {
 			base = os.TempDir()
 		}
 	}
+	sweepStaleScratch(base)
 	d, err := os.MkdirTemp(base, "verif."+tag+".")
 	if err != nil {
 		fmt.Fprintln(os.Stderr, "cannot create scratch dir:", err)
 		os.Exit(2)
 	}
+	os.WriteFile(filepath.Join(d, "owner.pid"), []byte(strconv.Itoa(os.Getpid())), 0o644)
 	cleanupDirs = append(cleanupDirs, d)
 	return d
+}
+
+// sweepStaleScratch removes scratch directories whose owning process is gone
+// (a check that was killed cannot run its own cleanup).
+func sweepStaleScratch(base string) {
+	ents, err := os.ReadDir(base)
+	if err != nil {
+		return
+	}
+	for _, e := range ents {
+		if !e.IsDir() || !strings.HasPrefix(e.Name(), "verif.") {
+			continue
+		}
+		d := filepath.Join(base, e.Name())
+		b, err := os.ReadFile(filepath.Join(d, "owner.pid"))
+		if err != nil {
+			continue
+		}
+		pid, err := strconv.Atoi(strings.TrimSpace(string(b)))
+		if err != nil {
+			continue
+		}
+		if err := syscall.Kill(pid, 0); err == syscall.ESRCH {
+			os.RemoveAll(d)
+		}
+	}
 }
 
 // copyTree copies src to dst, skipping names in skip (matched on base name).
